@@ -22,9 +22,9 @@ ToSet(s) == {s[i] : i \in 1 .. Len(s)}
 VARIABLES l, tid
 tvars == <<l, tid>>
 
-CfgOf(b) == [hosts |-> b.hosts, pol |-> [kind |-> b.polkind, n |-> b.poln, allow |-> ToSet(b.allow)],
+CfgOf(b) == [hosts |-> b.hosts, pol |-> [kind |-> b.polkind, n |-> b.poln, allow |-> ToSet(b.allow), name |-> b.policy],
              outs |-> AllOuts, k |-> b.k, idem |-> b.idem, cancel |-> "any", wire |-> b.wire]
-BlankCfg == [hosts |-> <<>>, pol |-> [kind |-> "none", n |-> 0, allow |-> {}], outs |-> {}, k |-> 0, idem |-> FALSE, cancel |-> "none", wire |-> FALSE]
+BlankCfg == [hosts |-> <<>>, pol |-> [kind |-> "none", n |-> 0, allow |-> {}, name |-> "none"], outs |-> {}, k |-> 0, idem |-> FALSE, cancel |-> "none", wire |-> FALSE]
 Proj(r) == Ev(r.ev, r.e, r.h, r.n, r.x, r.y)
 
 \* an end-to-end observer cannot see which *Iter executeQuery returned (n = -1 in the log)
